@@ -232,6 +232,8 @@ void CPCA(tensor *x, int scaling, size_t npc, CPCAMODEL *model)
       t->data[i] = Eb->m[best_block_id]->data[i][best_colvar_id];
     }
 
+    size_t iter = 0;
+    double conv;
     while(1){ /* loop until convergence of t */
       for(k = 0; k < Eb->order; k++){
         NewDVector(&p_b, Eb->m[k]->col);
@@ -272,7 +274,10 @@ void CPCA(tensor *x, int scaling, size_t npc, CPCAMODEL *model)
       MT_MatrixDVectorDotProduct(T, w_T, t_new);
      
       /* check for convergence */
-      if(calcConvergence(t_new, t) < CPCACONVERGENCE){
+      /* a null component makes the criterion NaN: stop instead of iterating forever */
+      conv = calcConvergence(t_new, t);
+      iter++;
+      if(conv < CPCACONVERGENCE || _isnan_(conv) || iter >= CPCAMAXITER){
         #ifdef DEBUG
         printf("new score calculated\n");
         printf("pc: %zu\n", pc);
